@@ -12,7 +12,7 @@ def special(name, quick, thorough, **kw):
 
 CONFIG = {
     "C01": {"jobs": [lockstep("C01", 4000, 60000), lockstep("general", 1500, 20000)]},
-    "C02": {"jobs": [lockstep("C02", 4000, 60000), lockstep("general", 1500, 20000), special("spanline", 600, 9000), special("spanscreen", 400, 6000)]},
+    "C02": {"jobs": [lockstep("C02", 4000, 60000), lockstep("general", 1000, 20000), special("spanline", 400, 9000), special("spanscreen", 400, 6000)]},
     "C03": {"jobs": [lockstep("C03", 4000, 60000), special("resizeidle", 400, 4000), special("spanline", 300, 4000)]},
     "C04": {"jobs": [lockstep("C04", 4000, 60000), special("resizeidle", 400, 4000)]},
     "C05": {"jobs": [lockstep("C05", 4000, 60000), special("resizeidle", 400, 4000), special("spanline", 300, 4000)]},
